@@ -169,6 +169,14 @@ func ruleCommitPoint(c *Ctx) {
 		return
 	}
 	pub := pubs[0]
+	// the main mempool is refreshed against the *new* ledger: after the block was published and after the height was
+	// advanced (the refresh callback, IsTxStillRelevant, reads both) - a pooled transaction that expires with this
+	// block must not survive it, since AddBlock trusts pooled transactions when the next block carries them
+	runGates(c, []GateSpec{{
+		ID: "storeBlock.pool-refresh-after-publish", Fn: fnStoreBlock, Target: "call:pkg/core/mempool.(*Pool).RemoveStale",
+		MustCall: [][]string{{symPersistPrivate}},
+		MustNode: [][]string{{"pkg/core#blockHeight", "sync/atomic.StoreUint32"}},
+	}})
 	after := f.reach(pub.blk.Succs, nil, nil)
 	n := 0
 	for _, r := range f.Returns() {
